@@ -104,6 +104,12 @@ def judge_words(fa, ref, n):
     got = []
     try:
         with core.step_budget(budget):
+            if n == 2:
+                # a caller may stop reading the enumeration early, edit the word it was given, and enumerate again
+                for w in fa.get_accepted_words(n):
+                    w.append("<edited by the caller>")
+                    break
+                core.LOG.count("C04.abandoned_generators")
             for w in fa.get_accepted_words(n):
                 got.append(w)
     except core.StepBudgetExceeded:
